@@ -319,6 +319,9 @@ class Schema(dict, metaclass=LogicalMeta):
 
         context = self.__parser__.make_context(force_error=True)
         value = field.parse_value(value, context=context)
+        if unprovided(value):
+            # invalid value excluded by on_error / invalid_values = 'exclude': keep the current value
+            return
 
         if field.property:
             if callable(setter):
